@@ -114,7 +114,11 @@ func (p *Path) builtin(fr *Frame, site ssa.Instruction, name string, c *ssa.Call
 		switch e := args[1].(type) {
 		case Slice:
 			if _, ok := e.Len.Uint64(); !ok {
-				return p.symAppendSlice(s, e, et)
+				if a, isArr := p.Heap[e.Obj].(*Arr); isArr && a.Elems != nil {
+					e.Len = p.ConcretizeTerm(e.Len, 4096)
+				} else {
+					return p.symAppendSlice(s, e, et)
+				}
 			}
 			extra = p.SliceElems(e)
 		case Str:
@@ -130,6 +134,18 @@ func (p *Path) builtin(fr *Frame, site ssa.Instruction, name string, c *ssa.Call
 		return p.Append(s, extra, et)
 	case "copy":
 		dst := args[0].(Slice)
+		// symbolic lengths and positions are split into their feasible values
+		dst.Len = p.ConcretizeTerm(dst.Len, 4096)
+		if dl, _ := dst.Len.Uint64(); dl == 0 {
+			return i64(0)
+		}
+		if e, ok := args[1].(Slice); ok {
+			e.Len = p.ConcretizeTerm(e.Len, 4096)
+			args[1] = e
+		}
+		if a, ok := p.Heap[dst.Obj].(*Arr); ok && a.Elems != nil {
+			dst.Off = p.ConcretizeTerm(dst.Off, 4096)
+		}
 		var src []Val
 		var srcLen *smt.Term
 		switch e := args[1].(type) {
